@@ -125,6 +125,13 @@ class Tally:
         texts = list(texts)
         if not texts:
             return
+        if shards:
+            # few, expensive cases: spread them over the shards (run_sharded cuts the list into contiguous parts)
+            size = (len(texts) + shards - 1) // shards
+            order = sorted(texts, key=len, reverse=True)
+            buckets = [order[i::shards] for i in range(shards)]
+            # bucket sizes differ by at most one; pad order so that contiguous cutting reproduces the buckets
+            texts = [t for b in buckets for t in b]
         hs = [c16.hx(t) for t in texts]
         pc = ["parse " + h for h in hs]
         sc = ["specparse " + h for h in hs]
@@ -263,9 +270,17 @@ def run(res, tier, seed, proof):
     # deep nesting: depths around powers of two and round numbers, with and without arguments / strings / siblings at every level,
     # balanced and unbalanced.  The extracted model needs about 1 s at depth 1000 and 45 s at 5000 (it recomputes lengths per
     # token), so beyond 1024 (2048 thorough) only the reference reader is compared with yang.Parse.
-    T.run("deep-nesting", c16.deep_texts(c16.DEPTHS[:8]), shards=lib.NCPU)
-    T.run("deep-nesting", c16.deep_texts(c16.DEPTHS[8:] + ([] if quick else [2048]), ["a{", "a x{", "a\n{\n"]), shards=lib.NCPU)
-    T.run("deep-nesting:reader-only", c16.deep_texts(c16.DEPTHS[8:] + c16.DEEP_DEPTHS), model=False, shards=lib.NCPU)
+    dq = [o for o in c16.DEEP_OPEN if '"' in o]
+    simple = ["a{", "a x{", "a\n{\n"]
+    if quick:
+        T.run("deep-nesting", c16.deep_texts([256, 257, 258]) + c16.deep_texts([255, 511, 512, 513], simple)
+              + c16.deep_texts([1024], simple[:2]), shards=lib.NCPU)
+        T.run("deep-nesting:reader-only", [o * d + "b;" + "}" * d for d in (1000,) for o in dq]
+              + c16.deep_texts([4096], c16.DEEP_OPEN_NODQ) + c16.deep_texts([5000], simple[:1]), model=False, shards=lib.NCPU)
+    else:
+        T.run("deep-nesting", c16.deep_texts(c16.DEPTHS[:8]) + c16.deep_texts(c16.DEPTHS[8:] + [2048], simple), shards=lib.NCPU)
+        T.run("deep-nesting:reader-only", [o * d + "b;" + "}" * d for d in c16.DEPTHS[8:] for o in dq]
+              + c16.deep_texts(c16.DEEP_DEPTHS, c16.DEEP_OPEN_NODQ), model=False, shards=lib.NCPU)
     T.run_chunked("multiline-grid", multiline_grid(24))
     T.run_chunked("grammar-directed", grammar_cases(rnd, 3000 if quick else 60000))
     T.run_chunked("malformed", malformed_cases(rnd, 300 if quick else 6000))
